@@ -63,6 +63,18 @@ func c15apiMix(rep *vh.Report, seed uint64, idx int) {
 		rep.Inconclusive("C15: " + err.Error())
 		return
 	}
+	// a second node of the same process on the same dialect value, with its own heartbeats (two link layers in one program)
+	tr2 := fake.NewTransport("second-node")
+	node2 := &gomavlib.Node{Endpoints: []gomavlib.EndpointConf{gomavlib.EndpointCustom{ReadWriteCloser: tr2}}, Dialect: testDialect, OutVersion: gomavlib.V2, OutSystemID: 52,
+		HeartbeatPeriod: 3 * time.Millisecond, HeartbeatSystemType: 7, StreamRequestEnable: true}
+	if err := node2.Initialize(); err == nil {
+		go func() {
+			for range node2.Events() {
+			}
+		}()
+		defer node2.Close()
+		rep.Count("api_mix_runs_with_a_second_node_on_the_same_dialect", 1)
+	}
 	peerKey := r.Bytes(32) // peers sign some of what they send
 	if bothKeys {
 		peerKey = keyRaw
